@@ -46,6 +46,9 @@ type Case struct {
 	EP     string            `json:"ep"`
 	Args   map[string]string `json:"args"`
 	Family string            `json:"family,omitempty"` // input family; part of the finding id when set
+	// Before: calls made just before this one (same entry point / any entry point): a hang or a changed
+	// outcome may be caused by state an earlier call left behind; a replay executes them first
+	Before []Case `json:"before,omitempty"`
 }
 
 // epFunc runs the real entry point. It returns (class ok|err|skip, canonical detail).
@@ -89,6 +92,7 @@ func call(c Case) outcome {
 }
 
 func callWithin(e *entryPoint, c Case, deadline time.Duration) outcome {
+	inflightSet(c)
 	ch := make(chan outcome, 1)
 	t0 := time.Now()
 	go func() {
@@ -108,6 +112,7 @@ func callWithin(e *entryPoint, c Case, deadline time.Duration) outcome {
 		o.Dur = time.Since(t0)
 		return o
 	case <-timer.C:
+		inflightLeak(c)
 		return outcome{Class: clsTimeout, Detail: "no return within " + deadline.String(), Dur: time.Since(t0)}
 	}
 }
@@ -207,14 +212,18 @@ func trimStack(s string) string {
 // run state ------------------------------------------------------------------------------------
 
 type runner struct {
-	res    *lib.Result
-	fl     lib.Flags
-	rnd    *lib.Rand
-	budget float64 // multiplier of the generators' case counts
-	perEP  map[string]int
-	slow   map[string]time.Duration
-	model  []modelCase       // cases that also go to the Lean model
-	seeds  map[string][]Case // a few executed cases per entry point: seed corpus of the native fuzz targets
+	res      *lib.Result
+	fl       lib.Flags
+	rnd      *lib.Rand
+	budget   float64 // multiplier of the generators' case counts
+	perEP    map[string]int
+	slow     map[string]time.Duration
+	model    []modelCase       // cases that also go to the Lean model
+	seeds    map[string][]Case // a few executed cases per entry point: seed corpus of the native fuzz targets
+	dead     map[string]bool   // entry points that hung: not called again (their goroutines still spin)
+	prevEP   map[string]Case   // previous case per entry point
+	prevAny  *Case             // previous case of any entry point
+	canaries map[string]Case   // first successful case per entry point, re-run at the end
 }
 
 func findingID(c Case, o outcome) string {
@@ -237,7 +246,33 @@ func findingID(c Case, o outcome) string {
 
 // do executes a case, runs the model-independent monitor and records statistics.
 func (r *runner) do(c Case) outcome {
+	if r.dead[c.EP] {
+		r.res.Hit("not-called-after-hang:" + c.EP)
+		return outcome{Class: clsSkip, Detail: "entry point hung earlier in this run"}
+	}
 	o := call(c)
+	if o.Class == clsTimeout {
+		// no further calls: the goroutines of this entry point still spin, and whatever state made it
+		// hang may be shared; the calls made just before are part of the case
+		r.dead[c.EP] = true
+		if p, ok := r.prevEP[c.EP]; ok {
+			p.Before = nil
+			c.Before = append(c.Before, p)
+		}
+		if r.prevAny != nil && (len(c.Before) == 0 || r.prevAny.EP != c.EP) {
+			p := *r.prevAny
+			p.Before = nil
+			c.Before = append(c.Before, p)
+		}
+	}
+	if o.Class != clsSkip {
+		r.prevEP[c.EP] = c
+		cc := c
+		r.prevAny = &cc
+		if _, have := r.canaries[c.EP]; !have && o.Class == clsOK && len(c.Before) == 0 && c.Family != "scaling" {
+			r.canaries[c.EP] = c
+		}
+	}
 	if o.Class == clsSkip {
 		r.res.Hit("skipped:" + c.EP)
 		return o
@@ -318,8 +353,13 @@ func mk(ep string, kv ...string) Case {
 
 func main() {
 	fl := lib.ParseFlags()
+	if os.Getenv("C07_CHILD") == "" && os.Getenv("C07_NOSUPERVISE") == "" {
+		supervise(fl)
+		return
+	}
+	inflightInit()
 	res := lib.NewResult("a case is (entry point, arguments); non-trivial = at least one non-empty argument; distinct = distinct (entry point, arguments)")
-	r := &runner{res: res, fl: fl, rnd: lib.NewRand(fl.Seed*0x9e3779b97f4a7c15 + 7), budget: 1, perEP: map[string]int{}, slow: map[string]time.Duration{}, seeds: map[string][]Case{}}
+	r := &runner{res: res, fl: fl, rnd: lib.NewRand(fl.Seed*0x9e3779b97f4a7c15 + 7), budget: 1, perEP: map[string]int{}, slow: map[string]time.Duration{}, seeds: map[string][]Case{}, dead: map[string]bool{}, prevEP: map[string]Case{}, canaries: map[string]Case{}}
 	if fl.Tier == "thorough" {
 		r.budget = 8
 	}
@@ -347,6 +387,7 @@ func main() {
 		g.fn(r)
 		res.Hit("gen_ms:" + g.name + ":" + lib.Itoa(int(time.Since(tg).Milliseconds())/100*100))
 	}
+	r.runCanaries()
 	r.runModel()
 	if only == "" || os.Getenv("C07_FUZZ") != "" {
 		runNativeFuzz(r)
@@ -409,6 +450,10 @@ func (r *runner) replay(path string) {
 		r.res.Note("replay file has no executable case (proof/inventory obligation): nothing to run")
 		return
 	}
+	for _, b := range c.Before { // the calls that preceded it
+		ob := call(b)
+		r.res.Note(fmt.Sprintf("replayed (before) %s: %s %s", b.EP, ob.Class, ob.Detail))
+	}
 	o := r.do(c)
 	r.res.Sample(map[string]any{"case": c, "outcome": o.Class, "detail": o.Detail})
 	r.res.Note(fmt.Sprintf("replayed %s: %s %s", c.EP, o.Class, o.Detail))
@@ -454,4 +499,26 @@ func hashKey(s string) string {
 		h *= 1099511628211
 	}
 	return strconv.FormatUint(h, 36)
+}
+
+// runCanaries re-runs, after everything else, the first call of every entry point that succeeded:
+// it must still succeed. A malformed input that left package-level state behind (a lock never
+// released, a poisoned cache) shows up here as a hang or a changed outcome.
+func (r *runner) runCanaries() {
+	ids := make([]string, 0, len(r.canaries))
+	for id := range r.canaries {
+		ids = append(ids, id)
+	}
+	sort.Strings(ids)
+	for _, id := range ids {
+		c := r.canaries[id]
+		if r.dead[id] {
+			continue
+		}
+		o := r.do(c)
+		r.res.Hit("canary:" + o.Class)
+		if o.Class != clsOK && o.Class != clsTimeout && o.Class != clsPanic && o.Class != clsSkip {
+			r.res.Violate(id+"-state-changed", fmt.Sprintf("%s: a call that succeeded at the start of the run returns %s at its end: some input left state behind", id, o.Class), c)
+		}
+	}
 }
